@@ -62,6 +62,7 @@ func runQueue(t *testing.T, c *QueueCase) (terms []string, viols []vh.Violation,
 	}
 	lg := slog.New(slog.NewTextHandler(io.Discard, nil))
 	hist := map[string][]string{"nfl": nil, "sil": nil}
+	capQ := queueCapacity(t) // measured on the real Channel, outside the bubble
 	synctest.Test(t, func(t *testing.T) {
 		mk := func() (*cluster.Peer, *nflog.Log, *silence.Silences, map[string]*prometheus.Registry, map[string]cluster.ClusterChannel) {
 			p := cluster.NewPeerForVerif(prometheus.NewRegistry(), lg)
@@ -192,7 +193,7 @@ func runQueue(t *testing.T, c *QueueCase) (terms []string, viols []vh.Violation,
 	})
 	for _, k := range []string{"nfl", "sil"} {
 		if len(hist[k]) > 1 {
-			terms = append(terms, fmt.Sprintf("KChan %s true [\n  %s]", vh.Str(k), joinLines(hist[k])))
+			terms = append(terms, fmt.Sprintf("KChan %s true %s [\n  %s]", vh.Str(k), vh.Z(int64(capQ)), joinLines(hist[k])))
 		}
 	}
 	return terms, viols, tags
